@@ -74,7 +74,6 @@ type harness struct {
 	failSig  []string
 	knownC   map[string]int
 	nfail    int
-	seenLine map[uint64]struct{}
 	fatal    int
 	mutR     *vh.Rng
 	muts     []mutItem
@@ -494,7 +493,7 @@ func main() {
 		rep.Rule += ". NOTE: predicates treated as known through -assume-known without an entry in the findings file: " + strings.Join(notes, ", ")
 		fmt.Println("c08: NOTE assumed known without an entry in", *findings+":", strings.Join(notes, ", "))
 	}
-	h := &harness{rep: rep, r: vh.NewRng(seed), active: active, knownC: map[string]int{}, seenLine: map[uint64]struct{}{}, mutR: vh.NewRng(seed ^ 0x6d757461)}
+	h := &harness{rep: rep, r: vh.NewRng(seed), active: active, knownC: map[string]int{}, mutR: vh.NewRng(seed ^ 0x6d757461)}
 
 	// is the driver there?  (it prints and denotes; without it only the N-Triples stream can run)
 	driverOK := true
@@ -510,9 +509,12 @@ func main() {
 		if *hints != "" {
 			h.replayFile(*hints, "hint")
 		}
-		n := 14000 * *scale
+		n := 90000 * *scale
 		if *tier == "thorough" {
-			n = 260000 * *scale
+			n = 1000000 * *scale
+		}
+		if n > 3000000 {
+			n = 3000000 // search mode (-scale 10) stays within the time budget of ./check
 		}
 		if driverOK {
 			if err := h.selfTest(300); err != nil {
@@ -527,7 +529,7 @@ func main() {
 				h.flush()
 			}
 		}
-		h.ntDocs(n / 2)
+		h.ntDocs(n / 4)
 	}
 
 	// minimise the first failures
@@ -555,7 +557,10 @@ func main() {
 	}
 	fmt.Printf("c08: %d evaluations (%d distinct non-trivial), %d compared with the model, %d failures (%d disagreement, %d violation C08, %d violation C07), known=%v, resolver-skips=%d, wall %.0fs\n",
 		rep.Evaluations, rep.Distinct, rep.Compared, rep.Failures(), rep.Hist["disagreement"], rep.Hist["violation:C08"], rep.Hist["violation:C07"], h.knownC, rep.Hist["resolver-skip"], rep.WallS)
-	if rep.Failures() > 0 || h.fatal > 0 {
+	if h.fatal > 0 {
+		os.Exit(2)
+	}
+	if rep.Failures() > 0 {
 		os.Exit(1)
 	}
 }
